@@ -50,6 +50,7 @@ SAFE_STR = {
     "ros_map_viewport": ["update", "keep_unchanged", "zoom_to_map"],
     # the name of a pandas writer (df.to_<format>)
     "table_export_format": ["csv", "json"],
+    "table_export_data": ["stats", "info", "error_array"],
 }
 RESERVED_KEY = "__locked__"
 PLOT_IMPORT_KEYS = ("plot_backend", "plot_seaborn_enabled",
